@@ -286,6 +286,19 @@ func init() {
 			}
 			curWorld = w
 			return "ok distinct=" + fmtInts(w.ctl.VerifDistinct()) + " " + w.state()
+		case "w.attach":
+			// the fan's limits as the start-up path installs them: from measured curve data, on top of the configuration
+			m, ok := parseFloatMap(a.str("data", "nil"))
+			var err error
+			if ok {
+				err = curWorld.fan.AttachFanRpmCurveData(&m)
+			} else {
+				err = curWorld.fan.AttachFanRpmCurveData(nil)
+			}
+			if err != nil {
+				return "err " + curWorld.state()
+			}
+			return "ok " + curWorld.state()
 		case "w.dev":
 			curWorld.applyDev(a)
 			return "ok " + curWorld.state()
